@@ -34,3 +34,7 @@ pub fn __pos_nz(s: &[u64]) -> (r: Option<usize>)
             None => forall|j: int| 0 <= j < s.len() ==> s[j] == 0,
         }
 { unimplemented!() }
+
+//@ assume std::<T as From<T>>::from : reflexive conversion is the identity (std: `impl<T> From<T> for T { fn from(t: T) -> T { t } }`)
+pub assume_specification<T>[ <T as core::convert::From<T>>::from ](x: T) -> (r: T)
+    ensures r == x;
